@@ -78,8 +78,8 @@ type movingAverageETA struct {
 }
 
 func (d *movingAverageETA) Decor(s Statistics) (string, int) {
-	v := math.Round(d.average.Value())
-	remaining := time.Duration((s.Total - s.Current) * int64(v))
+	v := d.average.Value()
+	remaining := time.Duration(math.Round(float64(s.Total-s.Current) * v))
 	if d.normalizer != nil {
 		remaining = d.normalizer.Normalize(remaining)
 	}
@@ -139,8 +139,7 @@ func (d *averageETA) Decor(s Statistics) (string, int) {
 	var remaining time.Duration
 	if s.Current != 0 {
 		durPerItem := float64(time.Since(d.start)) / float64(s.Current)
-		durPerItem = math.Round(durPerItem)
-		remaining = time.Duration((s.Total - s.Current) * int64(durPerItem))
+		remaining = time.Duration(math.Round(float64(s.Total-s.Current) * durPerItem))
 		if d.normalizer != nil {
 			remaining = d.normalizer.Normalize(remaining)
 		}
